@@ -35,13 +35,18 @@ type restResp struct {
 
 // restDo drives one request through the handler chain in-process.  ctx may be reused
 // across requests (keep-alive) or nil for a fresh one.
-func restDo(ctx *fasthttp.RequestCtx, method, uri string, body []byte) restResp {
+func restDo(ctx *fasthttp.RequestCtx, method, uri string, body []byte, hdr ...map[string]string) restResp {
 	if ctx == nil {
 		ctx = &fasthttp.RequestCtx{}
 	}
 	var req fasthttp.Request
 	req.Header.SetMethod(method)
 	req.SetRequestURI(uri)
+	for _, h := range hdr {
+		for k, v := range h {
+			req.Header.Set(k, v)
+		}
+	}
 	if body != nil {
 		req.Header.SetContentType("application/json")
 		req.SetBody(body)
